@@ -28,7 +28,7 @@ SCALES = ['linear', 'log', 'logicle']
 
 @st.composite
 def _case(draw):
-    spec = draw(sample_spec(min_d=1, max_d=4, min_n=2, max_n=6, datatypes=('I', 'I', 'I', 'F'),
+    spec = draw(sample_spec(min_d=1, max_d=4, min_n=0, max_n=6, datatypes=('I', 'I', 'I', 'F'),
                             with_time=False))
     D = len(spec['widths'])
     if draw(st.booleans()):
@@ -44,6 +44,8 @@ def _case(draw):
         if not spec['negatives'] and draw(st.booleans()):
             # only tiny negative events: the documented W would be negative and is floored at 0
             spec['specials'] = [[0, draw(st.integers(0, D - 1)), -draw(st.sampled_from([1e-3, 1e-6, 0.01, 0.5]))]]
+    if spec['n'] == 0:
+        spec.pop('specials', None)
     convert = draw(st.sampled_from([None, None, 'rfi', 'rfi', 'mef']))
     form = draw(st.sampled_from(['all', 'name', 'pos', 'neg', 'list', 'list1']))
     if form in ('name', 'pos', 'neg'):
@@ -62,7 +64,7 @@ def _case(draw):
     else:
         nbins = draw(nb)
     if form in ('all', 'list', 'list1') and draw(st.booleans()):
-        scale = [draw(st.sampled_from(SCALES)) for _ in range(k)]
+        scale = [draw(st.sampled_from(SCALES + SCALES + SCALES + ['cubic'])) for _ in range(k)]
     else:
         scale = draw(st.sampled_from(SCALES + SCALES + ['LOG', 'biexp']))
     over = {}
